@@ -1,5 +1,6 @@
 import PyYetiVerif.Model.BulkGrid
 import PyYetiVerif.Model.BulkDmigX
+import PyYetiVerif.Model.BulkMulti
 /-! Line protocol for C13 (text travels as lowercase hex of its ASCII bytes; a file is its
 lines joined by `0a`).
 
@@ -14,6 +15,7 @@ lines joined by `0a`).
   rdspoints|rdcsupers|rdextrn|rdsets|rddmig <hextext>,  rdtabled1 <hexname> <hextext>
       rddmig → name|form|mtype|rows|cols|frame  (frame: rows `/`-separated, entries `re@im`)
   rddmigx <expanded 0|1> <square 0|1> <hextext>   → like rddmig (`rddmig(f, expanded=…, square=…)`)
+  fileok <seg>…                 → ok | bad      (`fileOKb bulkReaders`; <seg> = c<owner>/<hexline>/… | j/<hexline>/…)
   vecw  <arg>…                  → hex text of the rows (`" ".join`) | error:ValueError | error:IndexError
       <arg> = s <int>  |  v <k> <int>×k
   grids <wide 0|1> I <arg> C <arg> X <m> (hx hy hz)×m D <arg> P <oarg> S <oarg>   → hex text | error:…
@@ -238,6 +240,18 @@ def answer (line : String) : String :=
   | ["rdsets", t] => match rdSets (linesOf t) with
       | some d => ";".intercalate (d.map fun (k, v) => fmtVal k ++ "=" ++ " ".intercalate (v.map toString))
       | none => "error"
+  | "fileok" :: ws =>
+      let segs : List (Option Seg) := ws.map fun w =>
+        match w.splitOn "/" with
+        | tag :: ls =>
+            if tag == "j" then some (Seg.junk (ls.map ofHex))
+            else match (tag.drop 1).toNat?, ls with
+              | some o, f :: cs => some (Seg.card o (ofHex f) (cs.map ofHex))
+              | _, _ => none
+        | [] => none
+      match segs.mapM id with
+      | some ss => if fileOKb bulkReaders ss then "ok" else "bad"
+      | none => "bad-op"
   | ["rddmig", t] => fmtDmigs (rdDmig (linesOf t))
   | ["rddmigx", e, q, t] => fmtDmigs (rdDmigX ⟨e == "1", q == "1"⟩ (linesOf t))
   | ws => (answerGrid ws).getD "bad-op"
